@@ -14,6 +14,8 @@
 (*   Reset / Submit{b,puts,dels} / IntroSegment{b} / Return{b}             *)
 (*   ReadBegin{c}           client c is about to issue one search          *)
 (*   ReadEnd{c,docs}        its result: docs = [[id, ver]] of ALL hits     *)
+(*   TermRead{c,b,docs}    result of a term query on the version term of  *)
+(*                          batch b, docs = [[id, stored version]]          *)
 (*   ReaderOpenBegin{r}     a low-level reader is about to be obtained     *)
 (*   ReaderObs{r,docs,count,seq}  everything read through reader r         *)
 (*   ReaderClose{r}                                                        *)
@@ -96,6 +98,13 @@ ReadIsPrefix == IsRead => Good(DocsOf(E.docs), 0 - 1) # {}
 ReadSeesReturned == IsRead => Fits(DocsOf(E.docs), 0 - 1, retAt[E.c], 0) # {}
 \* successive reads by one client never go backwards
 ReadsMonotonic == IsRead => Fits(DocsOf(E.docs), 0 - 1, retAt[E.c], lastK[E.c]) # {}
+
+\* a search that matches on the version term of batch b returns hits whose STORED
+\* version is b too, and exactly the documents some prefix holds at version b
+IsTermRead == l <= Len(Trace) /\ E.ev = "TermRead"
+TermReadOneSnapshot == IsTermRead =>
+   /\ \A d \in DocsOf(E.docs) : d[2] = E.b
+   /\ \E k \in 0..Len(io) : DocsOf(E.docs) = { d \in Replay(k) : d[2] = E.b }
 
 \* a reader is a point-in-time view: a prefix, not older than what had returned when it was obtained ...
 ReaderIsPrefix == IsObs => LET d == DocsOf(E.docs) IN
